@@ -60,7 +60,7 @@ def intake(agent_dir, x, sid, prop):
     note = open(os.path.join(agent_dir, f"meta{x}.txt")).read() if os.path.exists(os.path.join(agent_dir, f"meta{x}.txt")) else ""
     open(os.path.join(dst, "author_notes.txt"), "w").write(note)
     # ---- verify in a scratch worktree
-    d = slot_dir("verify")
+    d = slot_dir(os.environ.get("SEED_VERIFY_SLOT", "verify"))
     slot_reset(d)
     ver = {}
     profile = ""
@@ -85,13 +85,21 @@ def intake(agent_dir, x, sid, prop):
             profile = "--release "
             rc, out = sh("cargo run --release --offline 2>&1 | tail -15", cwd=demo, timeout=1800)
             rc2, _ = sh("cargo run --release --offline -q >/dev/null 2>&1", cwd=demo, timeout=1800)
-        ver["demo_profile"] = "release" if profile else "dev"
+        if rc2 == 0 and "miri" in note.lower():
+            # memory-safety-only change: values stay right, the demo is judged by the UB interpreter
+            profile = "MIRI"
+            rc, out = sh("cargo +nightly miri run --offline 2>&1 | tail -25", cwd=demo, timeout=3000)
+            rc2, _ = sh("cargo +nightly miri run --offline -q >/dev/null 2>&1", cwd=demo, timeout=3000)
+        ver["demo_profile"] = "miri" if profile == "MIRI" else ("release" if profile else "dev")
         ver["demo_with_patch_exit"] = rc2
         ver["demo_with_patch_tail"] = out[-600:]
     slot_reset(d)
     shutil.rmtree(demo, ignore_errors=True)
     shutil.copytree(os.path.join(dst, "demo"), demo)
-    rc2, _ = sh(f"cargo run {profile}--offline -q >/dev/null 2>&1", cwd=demo, timeout=1800)
+    if profile == "MIRI":
+        rc2, _ = sh("cargo +nightly miri run --offline -q >/dev/null 2>&1", cwd=demo, timeout=3000)
+    else:
+        rc2, _ = sh(f"cargo run {profile}--offline -q >/dev/null 2>&1", cwd=demo, timeout=1800)
     ver["demo_without_patch_exit"] = rc2
     shutil.rmtree(demo, ignore_errors=True)
     ok = (ver.get("patch_applies") and ver.get("builds") and ver.get("tests_with_patch", {}).get("failed") == 0
